@@ -100,6 +100,8 @@ def run_extract(lha, tmpdir, archive, opt_tokens, pre=(), answers=b"", as_root=T
                 arg += t
         t_start = time.time()
         os.utime(root, (1000, 1000))
+        os.utime(base, (1000, 1000))
+        base_before = os.lstat(base)
 
         def pre_fn():
             os.umask(0o022)
@@ -117,8 +119,16 @@ def run_extract(lha, tmpdir, archive, opt_tokens, pre=(), answers=b"", as_root=T
                 verdict = core.summarize_crash(rc, se)
         except subprocess.TimeoutExpired:
             rc, so, se, verdict = -999, b"", "", "TIMEOUT"
+        base_after = os.lstat(base)
+        base_changed = None
+        if (stat.S_IMODE(base_before.st_mode), int(base_before.st_mtime), base_before.st_uid) != \
+           (stat.S_IMODE(base_after.st_mode), int(base_after.st_mtime), base_after.st_uid):
+            base_changed = "mode %o -> %o, mtime %d -> %d, uid %d -> %d" % (
+                stat.S_IMODE(base_before.st_mode), stat.S_IMODE(base_after.st_mode), int(base_before.st_mtime),
+                int(base_after.st_mtime), base_before.st_uid, base_after.st_uid)
+            os.chmod(base, 0o755)
         return {"rc": rc, "listing": describe(base, t_start), "stdout": so, "stderr": se, "verdict": verdict,
-                "abs_prefix": base}
+                "abs_prefix": base, "base_changed": base_changed}
     finally:
         # restore permissions so that the tree can be removed
         for dp, dn, fn in os.walk(base):
